@@ -13,7 +13,7 @@ class Undecidable(Exception):
 
 SAFE_CALLS = {'int': int, 'str': str, 'len': len, 'sum': sum, 'divmod': divmod, 'tuple': tuple, 'reversed': reversed,
               'abs': abs, 'min': min, 'max': max, 'range': range, 'enumerate': enumerate, 'list': list, 'bool': bool,
-              'sorted': sorted, 'zip': zip, 'dict': dict, 'set': set, 'frozenset': frozenset}
+              'sorted': sorted, 'zip': zip, 'dict': dict, 'set': set, 'frozenset': frozenset, 'pow': pow}
 SAFE_METHODS = {'index', 'upper', 'lower', 'zfill', 'join', 'find', 'get', 'split', 'strip', 'rstrip', 'lstrip', 'partition', 'rsplit', 'replace'}
 
 
